@@ -72,7 +72,7 @@ func generate(P *Program, con *FuncContract) (res *FuncResult) {
 			g.obls = append(g.obls, o)
 		}
 		for _, a := range con.Asserts {
-			if !seen[a.Clause] {
+			if !seen[a.Clause] && !a.Optional {
 				dead("assert "+a.Clause.Label, a.Clause)
 			}
 		}
